@@ -309,7 +309,9 @@ class Harness(object):
             else: s.disable_signal_handler()
         elif what == 'save':
             if arg is None: s.SetSaveFrequency(None)
-            else: s.SetSaveFrequency(arg['every'], self.run.fs.path(arg.get('file', 'ckpt.pkl')))
+            else:
+                self._save_path = self.run.fs.path(arg.get('file', 'ckpt.pkl'))
+                s.SetSaveFrequency(arg['every'], self._save_path)
         elif what == 'mapper':
             from . import maps
             s.SetMapper(maps.make_map(arg))
@@ -479,6 +481,35 @@ class Harness(object):
         self.solver.SaveSolver(path)
         self.solvers[self.cur] = LoadSolver(path)
         self.run.probe('op.saveload')
+
+    def op_loadstate(self, op):
+        """the process dies here and a new one resumes from the restart file registered with SetSaveFrequency, AS IT STANDS (no
+        SaveSolver call): the file is a snapshot of an earlier moment, so the restored solver holds the settings of that moment --
+        the oracles are told which box it says it has"""
+        import os
+        from mystic.solvers import LoadSolver
+        path = getattr(self, '_save_path', None)
+        if not path or not os.path.exists(path):
+            self.run.probe('op.loadstate.no_file'); return
+        s2 = LoadSolver(path)
+        self.solvers[self.cur] = s2
+        self.run.probe('op.loadstate')
+        if getattr(s2, '_useStrictRange', False):
+            arg = {'lo': [float(v) for v in s2._strictMin], 'hi': [float(v) for v in s2._strictMax]}
+            if getattr(s2, '_useTightRange', None) is not None: arg['tight'] = s2._useTightRange
+            if getattr(s2, '_useClipRange', None) is not None: arg['clip'] = s2._useClipRange
+        else:
+            arg = None
+        self.bounds = dict(arg) if arg else None
+        self.settings_epoch += 1
+        synth = {'op': 'set', 'what': 'bounds', 'arg': arg, 'via': 'restored_from_restart_file'}
+        self.run.observing = True
+        try:
+            for o in self.oracles:
+                g = getattr(o, 'after_op', None)
+                if g: g(self, synth, {})
+        finally:
+            self.run.observing = False
 
     def op_copy(self, op):
         import copy
